@@ -558,6 +558,114 @@ def same_tokens(a, b):
 
 # --------------------------------------------------------------------------- rewrite rules
 
+
+FMT_LITS = {}    # hex -> bytes of the literal pieces seen by rule R9 since the last reset
+
+
+def _fmt_pieces(lit_tok):
+    """split a plain string literal token used as a format string into [('lit', bytes) | ('arg', None) | ('named', ident)];
+    None if it uses anything beyond `{}` / `{ident}` / `{{` / `}}` and simple escapes"""
+    if not (lit_tok.startswith('"') and lit_tok.endswith('"')):
+        return None
+    body = lit_tok[1:-1]
+    out = []
+    cur = bytearray()
+    i = 0
+    esc = {"n": 10, "r": 13, "t": 9, "\\": 92, '"': 34, "0": 0, "'": 39}
+    while i < len(body):
+        c = body[i]
+        if c == "\\":
+            if i + 1 >= len(body):
+                return None
+            d = body[i + 1]
+            if d in esc:
+                cur.append(esc[d]); i += 2; continue
+            if d == "x" and i + 3 < len(body):
+                cur.append(int(body[i + 2:i + 4], 16)); i += 4; continue
+            return None
+        if c == "{":
+            if body[i + 1:i + 2] == "{":
+                cur.append(123); i += 2; continue
+            j = body.find("}", i)
+            if j < 0:
+                return None
+            inner = body[i + 1:j]
+            if cur:
+                out.append(("lit", bytes(cur))); cur = bytearray()
+            if inner == "":
+                out.append(("arg", None))
+            elif re.match(r"[A-Za-z_][A-Za-z0-9_]*$", inner):
+                out.append(("named", inner))
+            else:
+                return None
+            i = j + 1
+            continue
+        if c == "}":
+            if body[i + 1:i + 2] == "}":
+                cur.append(125); i += 2; continue
+            return None
+        cur.extend(c.encode())
+        i += 1
+    if cur:
+        out.append(("lit", bytes(cur)))
+    return out
+
+
+def _lit_src(bs):
+    """a Rust string literal denoting exactly the bytes bs (ASCII + simple escapes)"""
+    o = []
+    for b in bs:
+        if b == 10: o.append("\\n")
+        elif b == 13: o.append("\\r")
+        elif b == 9: o.append("\\t")
+        elif b == 34: o.append('\\"')
+        elif b == 92: o.append("\\\\")
+        elif 32 <= b < 127: o.append(chr(b))
+        else: o.append("\\x%02x" % b)
+    return '"' + "".join(o) + '"'
+
+
+def _split_args(st, open_i, close_i):
+    """top-level comma-separated argument token ranges [(a, b)] inside st[open_i] .. st[close_i]"""
+    args = []
+    a = open_i + 1
+    depth = 0
+    for q in range(open_i + 1, close_i):
+        t = st[q]
+        if t.kind == "punct" and t.text in OPEN:
+            depth += 1
+        elif t.kind == "punct" and t.text in CLOSE:
+            depth -= 1
+        elif depth == 0 and is_p(t, ","):
+            args.append((a, q - 1))
+            a = q + 1
+    if a <= close_i - 1:
+        args.append((a, close_i - 1))
+    return args
+
+
+def _fmt_expand(text, st, args, pieces, sink, lit_fn, arg_fn):
+    """the statements that append the formatted pieces to `sink`"""
+    out = []
+    k = 0
+    for kind, v in pieces:
+        if kind == "lit":
+            # the bytes of the literal piece as an opaque named constant `vlit_<hex of the bytes>()`, defined once per unit
+            # (build_unit appends the definitions): long literal sequences never reach the solver
+            FMT_LITS[v.hex()] = v
+            out.append("%s(&mut %s, %s, Ghost(vlit_%s()));" % (lit_fn, sink, _lit_src(v), v.hex()))
+        elif kind == "arg":
+            if k >= len(args):
+                return None
+            a, b = args[k]
+            k += 1
+            out.append("%s(&mut %s, &(%s));" % (arg_fn, sink, text[st[a].start:st[b].end]))
+        else:
+            out.append("%s(&mut %s, &(%s));" % (arg_fn, sink, v))
+    if k != len(args):
+        return None
+    return " ".join(out)
+
 def apply_rules(text, rules, ed, base=0, regex_map=None):
     """Apply the closed list of rewrite rules (DESIGN.md 2.1 item 2) to `text`;
     edits are recorded in `ed` at offset `base`."""
@@ -654,6 +762,38 @@ def apply_rules(text, rules, ed, base=0, regex_map=None):
                 raise LexError("regex literal %s has no stand-in matcher (the literal changed?)" % lit)
             ed.replace(base + t.start, base + st[i + 4].end, "R7", regex_map[lit])
             i += 4
+        elif "R9" in rules and is_id(t, "format") and i + 3 < n and is_p(st[i + 1], "!") and is_p(st[i + 2], "(") \
+                and st[i + 3].kind == "str" and _fmt_pieces(st[i + 3].text) is not None:
+            # format!(LIT, args..) with only `{}` / `{ident}` placeholders: the String built piece by piece
+            # (assumed meaning of std's format machinery: concatenation of the literal pieces and the Display
+            # output of the arguments, in order)
+            e = match_close(st, i + 2)
+            args = _split_args(st, i + 2, e)[1:]
+            body = _fmt_expand(text, st, args, _fmt_pieces(st[i + 3].text), "vf_", "vf_lit", "vf_arg")
+            if body is None:
+                raise LexError("format! arguments do not match its placeholders")
+            ed.replace(base + t.start, base + st[e].end, "R9", "({ let mut vf_ = vf_new(); " + body + " vf_ })")
+            i = e
+        elif "R9" in rules and is_id(t, "write") and i + 2 < n and is_p(st[i + 1], "!") and is_p(st[i + 2], "("):
+            # write!(SINK, LIT, args..).unwrap() on a Vec<u8> sink (infallible): the pieces appended one by one
+            e = match_close(st, i + 2)
+            args = _split_args(st, i + 2, e)
+            ok = (len(args) >= 2 and args[0][0] == args[0][1] and st[args[0][0]].kind == "ident"
+                  and args[1][0] == args[1][1] and st[args[1][0]].kind == "str" and _fmt_pieces(st[args[1][0]].text) is not None
+                  and e + 4 < n and is_p(st[e + 1], ".") and is_id(st[e + 2], "unwrap") and is_p(st[e + 3], "(") and is_p(st[e + 4], ")"))
+            if not ok:
+                raise LexError("write! outside the supported form write!(IDENT, LIT, args..).unwrap()")
+            sink = st[args[0][0]].text
+            body = _fmt_expand(text, st, args[2:], _fmt_pieces(st[args[1][0]].text), sink, "vw_lit", "vw_arg")
+            if body is None:
+                raise LexError("write! arguments do not match its placeholders")
+            ed.replace(base + t.start, base + st[e + 4].end, "R9", "{ " + body + " }")
+            i = e + 4
+        elif "R10" in rules and is_id(t, "extend") and i >= 1 and is_p(st[i - 1], ".") and i + 3 < n and is_p(st[i + 1], "(") \
+                and st[i + 2].kind == "str" and st[i + 2].text.startswith("b\"") and is_p(st[i + 3], ")"):
+            # VEC.extend(b"..") -> VEC.extend_from_slice(b".."): the same bytes appended (Vec<u8> receiver)
+            ed.replace(base + t.start, base + t.end, "R10", "extend_from_slice")
+            i += 3
         elif "R5" in rules and is_id(t, "format") and i + 2 < n and is_p(st[i + 1], "!") and is_p(st[i + 2], "("):
             e = match_close(st, i + 2)
             ed.replace(base + t.start, base + st[e].end, "R5", "verif_fmt()")
